@@ -17,8 +17,11 @@ from .. import core, reports, shell
 TEX = 'This is ä \\textbf{testx}.\nSecond $x$ line\\footnote{Foot text}.\n\nLast\n'
 # second source: the text ends where the file ends (positions behind the last character are critical there)
 TEX2 = 'A ä b.\nLast \\textbf{line}'
+# third source: many short lines, for a long match with a short one nested in it
+TEX3 = ''.join('line%d \\emph{w%d} end\n' % (i, i) for i in range(9))
 MODES = ['plain', 'json', 'xml', 'xml-b', 'html', 'server']
 _plain = None
+_plain3 = None
 _plain2 = None
 
 
@@ -29,6 +32,14 @@ def plain_text():
         o = impl.run_filter(TEX, {'pack': '*', 'lang': 'en-GB', 'char': True})
         _plain = o.result[0]
     return _plain
+
+
+def plain_text3():
+    global _plain3
+    if _plain3 is None:
+        from .. import impl
+        _plain3 = impl.run_filter(TEX3, {'pack': '*', 'lang': 'en-GB', 'char': True}).result[0]
+    return _plain3
 
 
 def plain_text2():
@@ -128,6 +139,9 @@ def answer_bytes(case):
     if kind == 'end':
         t = plain_text2() + '\n\n'
         return shell.lt_answer([shell.lt_match(t, case[1], case[2], message='m')])
+    if kind == 'nest':
+        t = plain_text3() + '\n\n'
+        return shell.lt_answer([shell.lt_match(t, case[1], case[2], message='long'), shell.lt_match(t, case[3], case[4], message='short')])
     if kind == 'pair2':
         t = plain_text() + '\n\n'
         return shell.lt_answer([shell.lt_match(t, case[1], case[2], message='m'), shell.lt_match(t, case[3], case[4], message='n')])
@@ -229,8 +243,12 @@ class C15:
         with open(os.path.join(d, 'g.tex'), 'w', encoding='utf-8') as f:
             f.write(TEX2)
         self.sess2 = shell.Session(['--language', 'en-GB', 'g.tex'], lambda t, c: b'', cwd=d)
+        with open(os.path.join(d, 'h.tex'), 'w', encoding='utf-8') as f:
+            f.write(TEX3)
+        self.sess3 = shell.Session(['--language', 'en-GB', '--context', '0', 'h.tex'], lambda t, c: b'', cwd=d)
         plain_text()
         plain_text2()
+        plain_text3()
         all_paths()
 
     def bounds(self, tier):
@@ -269,6 +287,12 @@ class C15:
         for o in range(N2):
             for l in list(range(0, N2 - o + 1)) + [N2 + 5, 1000]:
                 yield ['end', o, l]
+        N3 = len(plain_text3())
+        for o in (0, 5, 14):
+            for l in (20, 60, N3 - o):
+                for o2 in range(o, min(o + 30, N3), 4):
+                    for l2 in (0, 3):
+                        yield ['nest', o, l, o2, l2]
         for o in (0, 3, N - 3):
             for l in (0, 2):
                 for o2 in range(0, N, 3):
@@ -281,10 +305,10 @@ class C15:
                 yield ['faults', [f, g]]
 
     def run_mode(self, mode, ans, second=False):
-        s = self.sess2 if second else self.sess
+        s = self.sess3 if second == 3 else self.sess2 if second else self.sess
         s.answer = lambda t, c: ans
         if mode == 'server':
-            val, err, code, exc = s.request({'language': ['en-GB'], 'text': [TEX2 + '\n' if second else TEX]})
+            val, err, code, exc = s.request({'language': ['en-GB'], 'text': [TEX3 if second == 3 else TEX2 + '\n' if second else TEX]})
             if val is not None:
                 try:
                     json.dumps(val).encode('ascii')
@@ -307,7 +331,7 @@ class C15:
         viol = []
         outs = []
         what = self.what(case)
-        second = case[0] == 'end'
+        second = 3 if case[0] == 'nest' else case[0] == 'end'
         for mode in MODES:
             out, err, code, exc = self.run_mode(mode, ans, second)
             det = {'answer': ans[:1500].decode('utf-8', 'replace'), 'mode': mode, 'stderr': err[-400:], 'fault': what}
@@ -322,7 +346,7 @@ class C15:
                     viol.append({'clause': 'stops with its own one-line diagnostic and exit status 1', 'sig': 'C15:exit:%s:%s' % (code, mode),
                                  'detail': det})
                 continue
-            tex = TEX2 + '\n' if second else TEX
+            tex = TEX3 if second == 3 else TEX2 + '\n' if second else TEX
             p = judge_output(mode, out, tex)
             outs.append('report')
             if p:
@@ -361,11 +385,11 @@ class C15:
         d = os.path.join(core.scratch_dir(), 'cli15')
         for case in picks:
             ans = answer_bytes(case)
-            second = case[0] == 'end'
+            second = 3 if case[0] == 'nest' else case[0] == 'end'
             for mode in ('plain', 'html', 'json'):
                 out, err, code, exc = self.run_mode(mode, ans, second)
-                rc, cout, cerr, args = shell.run_cli(['--language', 'en-GB', '--output', mode, 'g.tex' if second else 'f.tex'],
-                                                     {'f.tex': TEX, 'g.tex': TEX2}, {}, ans, d)
+                rc, cout, cerr, args = shell.run_cli(['--language', 'en-GB', '--output', mode] + (['--context', '0', 'h.tex'] if second == 3 else ['g.tex' if second else 'f.tex']),
+                                                     {'f.tex': TEX, 'g.tex': TEX2, 'h.tex': TEX3}, {}, ans, d)
                 n += 1
                 if exc:
                     same = 'Traceback' in cerr and rc == 1
